@@ -69,10 +69,10 @@ CHECKS = {
    note="Epochs beyond the enumerated seeds rest on the epoch only seeding round keys."),
  "C06": dict(cat="fault_enumeration", design="§5 C06",
    technique="exhaustive abort-point enumeration: hard node budget k for every k of a search, soft limit at every iteration boundary, persistent-instance game sequences, UCI numeric-argument sweep; reference-model legality oracle and deep board snapshots",
-   text="For constructed special roots (in-check, single-reply, promotion, clocks 98/99/100, mates, stalemates), histories with second/third occurrences, perft/bench roots x depth x table size: the search is aborted after exactly k nodes for every k up to the size of the full search (strided beyond a cap), at every iteration boundary by a soft limit, searched again on the same instance, and driven along whole games on one instance; returned move null or legal, null only on final roots, (0,0)/(0,-Inf) on completed final roots, board snapshot identical, nodes <= budget; `go` with numeric edge arguments through a real driver.",
+   text="For constructed special roots (in-check, single-reply, promotion, clocks 98/99/100, mates, stalemates), histories with second/third occurrences, perft/bench roots x depth x table size: the search is aborted after exactly k nodes for every k up to the size of the full search (strided beyond a cap), at every iteration boundary by a soft limit, searched again on the same instance, and driven along whole games on one instance; poisoned tables (the table entry of the root or of a position one move below it holds every from/to encoding, as a colliding entry would leave it); look-alike histories (a right or an en-passant pawn gone between equal placements); returned move null or legal, null only on final roots, (0,0)/(0,-Inf) on completed final roots, board snapshot identical, nodes <= budget; `go` with numeric edge arguments through a real driver.",
    note="Abort by the stop channel at polls that node budgets cannot reach is covered by the instrumented fault-plan run when built; refchess trusted."),
  "C07": dict(cat="model_checking", design="§5 C07",
-   technique="bounded exhaustive enumeration of searches (roots x generated shuffle histories x depths x table sizes x abort points, warmed-table games) with every reported variation replayed in the reference model",
+   technique="bounded exhaustive enumeration of searches (roots x generated shuffle histories x depths x table sizes x abort points, warmed-table games, poisoned table entries, ponderhit at every poll) with every reported variation replayed in the reference model",
    text="Every `info .. pv` line of every search (fresh tables over the whole root corpus and thousands of generated out-and-back histories that put draws inside the tree, depths 1..6, two table sizes, hard-budget sweeps; persistent instances along engine-vs-engine games with tiny and normal tables) is replayed move by move in the reference model; returned move = head of the last non-empty line; ponder legal; depths increase, nodes never decrease.",
    note="Table states are reached by deterministic games, not exhausted."),
  "C08": dict(cat="model_checking", design="§5 C08",
